@@ -3,6 +3,7 @@ C03 — the statement trees of the relations: tie to the generated tokens, and `
 -/
 import CBV.Model.C03Trans
 import CBV.Lemmas.C03Calc
+import CBV.Gen.TC03
 
 namespace CBV.C03
 
